@@ -60,22 +60,29 @@ CLAIMED.update({
         text=("Same extracted loop for tuned runs (no sample_size): sizes are 1, 2, 4, ... doubling each round while the slowest sample / "
               "timer precision <= 100, the first round exceeding 100 becomes the first recorded one and its size is kept, samples of earlier "
               "rounds are cleared (SampleCollection::clear: timings and allocation map) before it is stored, recorded = T * (rounds - first), "
-              "and max_time is checked before every tuning round. ENVIRONMENT ASSUMPTION: a sample of >= 2^31 iterations outlasts 101 x "
+              "and max_time is checked before every tuning round; CounterCollection::clear_input_counts empties the per-sample counts of every input-fed counter kind and of no other. ENVIRONMENT ASSUMPTION: a sample of >= 2^31 iterations outlasts 101 x "
               "precision (so doubling cannot overflow u32)."),
         note=LOOP_NOTE,
         technique="Verus loop invariants over a ghost history on the extracted sampling loop",
         design_ref="5 C19"),
     "C05": dict(
         category="proof",
-        text=("Verus proves contracts on the helpers (util::slice_middle returns exactly the one or two middle elements for every length, "
-              "FineDuration::clamp_to/is_zero, SampleCollection::clear/iter_count). The real BenchContext::compute_stats is checked by Kani "
-              "only BOUNDED (0, 1 samples quick; 2-4 thorough) over symbolic 128-bit durations: exact min/max/median/mean per iteration, "
-              "orderings, sample_count/iter_count, no panic, no NaN incl. zero samples; and, with distinct per-sample tallies in a symbolic "
-              "order, that allocation and counter figures are those of the samples that supplied the time."),
-        note=("compute_stats is closure/iterator/HashMap code outside Verus; only the helpers are proved unbounded, the function itself is a "
-              "bounded stand-in (not counted as discharged obligations). HashMap seeding is stubbed (RandomState::new -> zero keys). Printing is "
-              "not checked. The zero-sample panic/NaN defect found here was repaired by a fix: commit (known_findings.txt)."),
-        technique="Verus contracts on helper functions + bounded Kani harnesses on compute_stats",
+        text=("Verus proves, for EVERY number of samples and every sample size, the time columns of the real BenchContext::compute_stats (two regions of its text "
+              "assembled into one function: from its first statement to `let median_duration = ..;`, and the head of the returned Stats literal): with p the "
+              "ascending arrangement of the recorded durations, sample_count = n, iter_count = n*s, fastest = p[0]/s, slowest = p[n-1]/s, median = the middle "
+              "sample or the mean of the two middle ones, /s, mean = total/(n*s), all zero for n = 0, no overflow and no division by zero, and by a lemma "
+              "fastest <= median <= slowest, fastest <= mean <= slowest; under contract on the way: util::slice_middle (exactly the one or two middle elements "
+              "for every length), SampleCollection::iter_count / total_duration, <FineDuration as Div<I>>::div, FineDuration::clamp_to / is_zero, "
+              "SampleCollection::clear, ThreadAllocTallyMap::add_to_total. Kani (BOUNDED: 0, 1, 2 samples quick; 2-3 thorough) checks the compiled compute_stats "
+              "over symbolic 128-bit durations (exact order statistics, no panic, no NaN incl. zero samples) and, with distinct per-sample tallies in a symbolic "
+              "order, that allocation figures are those of the samples that supplied the time; a shim holding the storing part of bench_loop_threaded shows a "
+              "sample's allocation figures go under the index of its own timing (none for a sample without allocator calls, present for one that only deallocated)."),
+        note=("ASSUMED in the Verus unit: SampleCollection::sorted_samples returns an ascending arrangement of references to the samples (std sort; bounded Kani "
+              "harness on the real function), the iterator sums `X.iter().map(|s| s.duration.picos).sum()` (pinned text) are sums, u32 -> u128 `into` is the value "
+              "(two axioms, Kani-paired); environment: fewer than 2^32 samples, the total and twice any duration fit u128, samples are only recorded with s > 0 "
+              "(the loop's invariant). The allocation and counter columns (floats, HashMap, pointer-identity lookups) have no unbounded proof. HashMap seeding is "
+              "stubbed (RandomState::new -> zero keys). Printing is not checked. The zero-sample panic/NaN defect found here was repaired by a fix: commit."),
+        technique="Verus contracts on regions of compute_stats and on its helper functions; bounded Kani harnesses for the allocation columns",
         design_ref="5 C05"),
     "C09": dict(
         category="proof",
@@ -96,7 +103,7 @@ CLAIMED.update({
               "(thorough tier, ~9 min) and within a 2^16 window (quick tier, bounded, counterexample source). Verus also proves on the real "
               "Timer::measure_precision (the clock sample - untagged timestamps, delay loop, unsafe into_timestamp - pinned and replaced by an "
               "uninterpreted take_sample): whatever the clock does, the value returned is the least non-zero sample observed during the call and was "
-              "itself observed, hence a positive multiple of the step of a uniform-step clock (partial correctness)."),
+              "itself observed (each observation tied to the clock by an uninterpreted predicate only the clock-sample stand-in establishes, over the real Timer enum), hence a positive multiple of the step of a uniform-step clock (partial correctness)."),
         note=("That a sample spanning exactly one clock step is observed (so that the precision EQUALS the step), termination of measure_precision, "
               "and the Os timer arm (std Instant) are undecided. Trusted specs (derived Default, derived Ord, MAX, is_zero) are Kani-checked."),
         technique="Verus contract + arithmetic lemmas on extracted code; Kani complete harnesses",
@@ -106,7 +113,7 @@ CLAIMED.update({
         text=("Verus proves on the extracted FilterSet::is_match, for EVERY filter set (no bound): the result is exactly the rule - no skip "
               "filter matches, and there are no positive filters or at least one matches - over the skip entries before the split index and "
               "the positive ones after it (the iterator expression `.iter().position(..)` is pinned and replaced by an assumed 'first matching "
-              "index' contract). Kani: SplitVec::insert keeps skip entries before the split for every order of up to 5 inserts and "
+              "index' contract), and on FilterSet::include / exclude / insert_filter, over an ASSUMED contract of the unsafe SplitVec::insert: for every path, a skip filter removes exactly the paths it matches, a positive filter adds exactly the paths it matches that no skip filter matches. Kani: SplitVec::insert keeps skip entries before the split for every order of up to 5 inserts and "
               "Filter::Exact is whole-string equality (bounded, quick); thorough tier: the rule again on up to 3 real filters, and "
               "EntryTree::retain on a small tree (experimental tier only). Verus proves retain_one, the closure body of EntryTree::retain outlined (one node: a leaf "
               "is kept iff its path passes, each runtime argument separately; a parent iff a child remains). Verus also proves, on the real text of Divan::run_action (calls replaced by opaque stand-ins followed by a ghost step log; iterator chains, the group loop, timer selection, eprintln!, column widths pinned): filtering is applied once, to the tree "
@@ -127,7 +134,7 @@ CLAIMED.update({
               "the runner's thread option winning over the entry's, and (bounded) sample_count, sample_size and skip_ext_time resolving independently, runner over "
               "entry, for every combination of set / unset at both levels, a counter given at run time surviving whatever the benchmark sets. Verus also proves, for every ArgMatches, on the region of the real Divan::config_with_args that copies parsed arguments into the runner (verified in chunks of five statements and composed): each run-time option given (sample-count, sample-size, threads sorted and deduplicated, "
               "min-time, max-time, skip-ext-time with or without value, the four counter flags, --ignored / --include-ignored) is stored as "
-              "Some(value) in its own field whatever the value, and an option not given leaves its field alone. Verus also proves one level of Divan::run_tree for every tree: each benchmark is handed "
+              "Some(value) in its own field whatever the value, and an option not given leaves its field alone; and on the builder methods Divan::{run_ignored, run_only_ignored, sample_count, sample_size, min_time, max_time, skip_ext_time}: each sets its own field to the value given and leaves every other field of the runner as it was. Verus also proves one level of Divan::run_tree for every tree: each benchmark is handed "
               "to run_bench_entry, and each group's children are walked, with the node's own options over the inherited ones (child over parent), and "
               "run_action starts the walk with nothing inherited; and the terse-listing walk's effective ignore (same unit as C14)."),
         note=("clap itself (flag names, value parsers, DIVAN_* environment fallbacks in src/cli.rs) is ASSUMED to deliver the parsed values; "
@@ -142,7 +149,7 @@ CLAIMED.update({
               "precision <= 10, and passes exactly floor(value_in_unit * 10^p) (or whole days beyond DAY*10^p), which is < 2^53 for p <= 4. "
               "Kani (complete): suffixes, from_picos on compiled code, util::fmt::scale_value's prefix for every f64. Kani (bounded): util::fmt::format_f64's "
               "truncation rule (integer digits in full, max(0, 4 - d) decimals, truncated, no trailing zeros, no lone dot) on renderings of 1, 3 and 5 integer "
-              "digits, a dot and six fraction digits with every digit symbolic, f64::to_string being replaced by that rendering."),
+              "digits, a dot and six fraction digits with every digit symbolic, f64::to_string being replaced by that rendering. Kani (complete): AnyCounter::display_throughput hands the whole 128-bit duration to the throughput formatter (exact below 2^53, on the same side of every power of two as the duration)."),
         note=("f64::to_string itself (std) is replaced by a chosen rendering; renderings with exponent or without a dot, and sig_figs other than 4, are not covered. "
               "Throughput float arithmetic and width/fill handling are not under contract."),
         technique="Verus contracts on extracted functions and one region; Kani complete harnesses",
@@ -163,9 +170,10 @@ CLAIMED.update({
               "generated value is counted once before the start timestamp, passed to exactly one call, its output and (for the by-reference "
               "forms) the value itself dropped exactly once after the end timestamp, output before input, all on the generating thread. Six "
               "complete harnesses through the real entry points show the _local forms reach the loop with thread_count 1 for every "
-              "configured count and the other forms with the configured count."),
+              "configured count and the other forms with the configured count. Verus proves (no bound) on the closure count_input of bench_loop_threaded, outlined: "
+              "a generated value is shown exactly once to the input counter of every kind and what each says is added to that kind's total of the sample and to no other."),
         note=ROUND_NOTE,
-        technique="bounded Kani harnesses with an online monitor (bounded stand-in); complete Kani harnesses for the entry points",
+        technique="bounded Kani harnesses with an online monitor (bounded stand-in); complete Kani harnesses for the entry points; Verus contract on the outlined count_input closure",
         design_ref="5 C01"),
     "C02": dict(
         category="other",
@@ -228,13 +236,15 @@ CLAIMED.update({
               "7-10 min each). Verus also proves, for every ArgMatches, on the region of the real Divan::config_with_args that copies parsed arguments into the runner (verified in chunks of five statements and composed): --sortr ATTR sets that attribute and the reverse flag, --sort ATTR that attribute ascending, sortr winning; run_action sorts the tree once, by the "
               "runner's attribute and direction, right before walking it; and the closures EntryTree::sort_by_attr gives to the std sorts (outlined): the "
               "node comparator is cmp_by_attr, exactly reversed under --sortr; the argument comparator is cmp_bench_arg_names, exactly reversed under --sortr; "
-              "the recursion passes the same attribute and direction."),
+              "the recursion passes the same attribute and direction. Verus also proves util::sort::cmp_int for digit runs of EVERY length: the result is the "
+              "comparison of the numbers the two runs denote, leading zeros included (str::trim_start_matches('0'), <str as Ord>::cmp and the byte length of an ASCII "
+              "string ASSUMED). Kani (complete, parse tables): integer argument names over the whole u128 / i128 range are ordered by value by the integer branch alone."),
         note=("str::parse::<f64> itself (core dec2flt) is outside CBMC's reach: it is stubbed to Err in the integer harnesses and to a two-entry table of symbolic "
               "floats in float_arg_names_by_value (float arguments by value for every pair of f64; a NaN is ordered as text and never ties with a number); natural_cmp on mixed text / digit strings "
               "gives CBMC no answer within 25 min (experimental tier only), so tokenisation of mixed names is not covered. The leaf comparisons under "
               "EntryTree::cmp_by_attr (kind, display name, location, address) are assumed; the std sorts themselves ('sorting only permutes') are assumed. "
-              "Category 'other' because the name comparators are bounded only; only cmp_by_attr and with_tie_breakers are proved."),
-        technique="Verus contract on the real cmp_by_attr (proved) + bounded Kani harnesses on the name comparators (bounded stand-in)",
+              "Category 'other' because tokenisation (Tokenizer::next, natural_cmp) is bounded only; cmp_by_attr, with_tie_breakers, cmp_int and the sort closures are proved."),
+        technique="Verus contracts on the real cmp_by_attr, cmp_int and the sort closures (proved) + bounded Kani harnesses on tokenisation and argument names (bounded stand-in)",
         design_ref="5 C16"),
 })
 
